@@ -108,11 +108,18 @@ def path_bytes(ctx, job, box):
             cur['t'].append(stdlib.as_str_nofork(args[1]))
             return ('skip', UNIT)
         return None
-    eng.call_hooks['>::feed'] = hook
-    eng.py_listeners['Rec'] = Recorder()
-    sA = Session(eng, L, listener='Rec')
-    sB = Session(eng, L, listener='Rec')
-    bs = [ctx.bvvar('b%d' % i, 8) for i in range(n)]
+    full = job.params.get('full', False)     # run the recogniser too (listener events are compared)
+    if not full:
+        eng.call_hooks['>::feed'] = hook
+    recA, recB = Recorder(), Recorder()
+    eng.py_listeners['RecA'] = recA
+    eng.py_listeners['RecB'] = recB
+    sA = Session(eng, L, listener='RecA')
+    sB = Session(eng, L, listener='RecB')
+    bs = [z3.BitVecVal(b, 8) for b in job.params.get('prefix', ())]
+    bs += [ctx.bvvar('b%d' % i, 8) for i in range(n)]
+    bs += [z3.BitVecVal(b, 8) for b in job.params.get('suffix', ())]
+    n = len(bs)
     bounds = [0] + list(cuts) + [n]
     chunks = [bs[bounds[i]:bounds[i + 1]] for i in range(len(bounds) - 1)]
     outA = outB = 'ok'
@@ -145,9 +152,12 @@ def path_bytes(ctx, job, box):
         ev = Ev(model)
         pre = [['byte_parser']] + ([['select_other_charset', '@']] if mode == '8bit' else [])
 
-        def pred(fed, out):
+        def pred(fed, out, rec=None):
             if out != 'ok':
                 return {'ok': False, 'out': [], 'panic': msg}
+            if full:
+                from ..selftest import rec_json
+                return {'ok': True, 'out': [rec_json(rec, ev)]}
             st = [['parser'], ['set_use_utf8', mode != '8bit']]
             for f in fed:
                 st.append(['feed_cps', [ev.int(c) for c in f.c]])
@@ -155,7 +165,7 @@ def path_bytes(ctx, job, box):
             return {'ok': r.get('ok'), 'out': r.get('out'), 'panic': r.get('panic')}
         a = {'listener': 'rec', 'steps': pre + jb(model, [bs])}
         b = {'listener': 'rec', 'steps': pre + jb(model, chunks)}
-        return [(a, pred(fedA, outA)), (b, pred(fedB, outB))]
+        return [(a, pred(fedA, outA, recA)), (b, pred(fedB, outB, recB))]
 
     def describe(model):
         ev = Ev(model)
@@ -168,6 +178,10 @@ def path_bytes(ctx, job, box):
         return Check(False, scenario, describe, outcome='panic', label='one call %s but the chunked feed %s' % (outA, outB))
     if outA == 'panic':
         return Check(True, scenario, describe, label='both panic (C01)')
+    if full:
+        ok, why = events_same(recA.events, recB.events)
+        return [Check(ok, scenario, describe,
+                      label='listener events of a byte stream depend on where it was cut%s' % ((': ' + why) if why else ''))]
     a = [c for s in fedA for c in s.c]
     b = [c for s in fedB for c in s.c]
     if len(a) != len(b):
@@ -271,6 +285,18 @@ def jobs(tier):
                 js.append(Job('bytes/len3/cut%d,%d' % (a, b), path_bytes, len=3, cuts=(a, b), prop=PROP))
     for k in range(0, 3):
         js.append(Job('bytes8/len2/cut%d' % k, path_bytes, len=2, cuts=(k,), mode='8bit', prop=PROP))
+    # byte streams through decoder AND recogniser: sequences that act on the parser itself (ESC % x, SO/SI,
+    # designators) followed by bytes whose decoding depends on the mode
+    for name, pre, nsym, suf in (('escpct', b'a\x1b%', 1, b'\xe9t\xc3\xa9'), ('escpct@', b'ab\x1b%@', 0, b'\xe9t\xe9'),
+                                 ('escpctG', b'\x1b%G', 0, b'\xc3\xa9\xe9'), ('so', b'\x0e', 1, b'q\x0f'),
+                                 ('sym2', b'', 2, b'')):
+        total = len(pre) + nsym + len(suf)
+        for k in range(1, total):
+            js.append(Job('bytesfull/%s/cut%d' % (name, k), path_bytes, len=nsym, cuts=(k,), prefix=tuple(pre),
+                          suffix=tuple(suf), full=True, prop=PROP))
+    for k in range(1, 6):
+        js.append(Job('bytesfull8/escpct@/cut%d' % k, path_bytes, len=0, cuts=(k,), prefix=tuple(b'\x1b%G\xc3\xa9Z'),
+                      suffix=(), full=True, mode='8bit', prop=PROP))
     for k in range(0, len(SESSION) + 1):
         js.append(Job('session/cut%d' % k, path_screen, data=tuple(SESSION), cut=k, prop=PROP))
     return js
